@@ -158,6 +158,16 @@ Theorem C01_searchdef_run_is_sd_run :
     Some (sd_run line omatch ohint d l).
 Proof. exact (searchdef_on_shape _ C01_searchdef_run_shape). Qed.
 
+(* the two tests of SearchDef.run as the source writes them: the hint
+   pre-check is performed whenever there is a hint (whatever the number of
+   patterns) - guard 0 of the reading above - and the pattern loop is left
+   as soon as a pattern matched - guard 2 *)
+Theorem C01_searchdef_run_tests_are_model :
+  (forall has_hint npatterns,
+     searchdef_run_hint_gate has_hint npatterns = has_hint) /\
+  (forall matched, searchdef_run_leaves_loop matched = matched).
+Proof. split; reflexivity. Qed.
+
 (* the local expressions of _flush_results_buffer that are not events:
    limit = MAX, buffer[:limit], range(limit), pop(0), limit -= 1 - as
    extracted from the source they are the ones flush_loop uses *)
